@@ -40,9 +40,11 @@ __all__ = [
 logger = logging.getLogger(__name__)
 
 
-def _redshift_histogram(patch: Patch, binning: Binning) -> NDArray:
+def _redshift_histogram(
+    patch_id: int, patch: Patch, binning: Binning
+) -> tuple[int, NDArray]:
     """Worker function that computes a redshift histgram from a given patch and
-    binning."""
+    binning, returns the result together with the patch ID."""
     redshifts = patch.redshifts
     # numpy histogram uses the bin edges as closed intervals on both sides
     if binning.closed == "right":
@@ -53,7 +55,7 @@ def _redshift_histogram(patch: Patch, binning: Binning) -> NDArray:
     weights = patch.weights[mask] if patch.has_weights else None
 
     counts, _ = np.histogram(redshifts[mask], binning.edges, weights=weights)
-    return counts.astype(np.float64)
+    return patch_id, counts.astype(np.float64)
 
 
 def resample_jackknife(observations: NDArray, patch_rows: bool = True) -> NDArray:
@@ -129,16 +131,19 @@ class HistData(CorrData):
 
         patch_count_iter = parallel.iter_unordered(
             _redshift_histogram,
-            catalog.values(),
+            catalog.items(),
             func_kwargs=dict(binning=config.binning),
+            unpack=True,
             max_workers=max_workers,
         )
         if progress:
             patch_count_iter = Indicator(patch_count_iter, len(catalog))
 
+        # results arrive in arbitrary order, store them in order of patch IDs
+        row_of_patch = {patch_id: row for row, patch_id in enumerate(catalog.keys())}
         counts = np.empty((len(catalog), config.num_bins))
-        for i, patch_count in enumerate(patch_count_iter):
-            counts[i] = patch_count
+        for patch_id, patch_count in patch_count_iter:
+            counts[row_of_patch[patch_id]] = patch_count
         parallel.COMM.Bcast(counts, root=0)
 
         return cls(
